@@ -82,6 +82,7 @@ struct World::Task {
     bool started = false;
     std::function<bool()> pred;
     long failed_polls = 0;   // consecutive unsuccessful polls since the rank last did or received anything
+    long soft_calls = 0;     // consecutive non-yielding API calls (tests on inactive requests) since the last real yield
     long stall_until = 0;
     long stall_countdown = -1;
     double vt = 0, speed = 1, prio = 0;
@@ -156,7 +157,9 @@ static void free_stack(char* p, size_t sz) {
 
 // --- construction -----------------------------------------------------------------------------------
 World::World(const Options& o) : o_(o) {
-    rng_ = o.seed * 0x9E3779B97F4A7C15ULL + 0xD1B54A32D192ED03ULL;
+    // scramble the seed: consecutive seeds must not give shifted copies of one splitmix64 stream
+    { uint64_t z = o.seed + 0xD1B54A32D192ED03ULL; z = (z ^ (z >> 30)) * 0xBF58476D1CE4E5B9ULL; z = (z ^ (z >> 27)) * 0x94D049BB133111EBULL; z ^= z >> 31;
+      z ^= 0x5851F42D4C957F2DULL; z = (z ^ (z >> 30)) * 0xBF58476D1CE4E5B9ULL; z = (z ^ (z >> 27)) * 0x94D049BB133111EBULL; rng_ = z ^ (z >> 31); }
     posted_.resize(o.nranks);
     unexpected_.resize(o.nranks);
     std::unique_ptr<Ctx> w(new Ctx);
@@ -217,7 +220,29 @@ std::string World::format_trace(size_t max_lines) const {
     if (start) os << "... (" << start << " earlier events omitted)\n";
     for (size_t i = start; i < events_.size(); i++) {
         const Event& e = events_[i];
-        os << "step " << e.step << " r" << e.rank << " " << ev_kind_name[e.kind] << " " << e.a << " " << e.b << " " << e.c << " " << e.d << "\n";
+        os << "step " << e.step << " ";
+        if (e.rank >= 0) os << "r" << e.rank << " "; else os << "net ";
+        switch (e.kind) {
+            case EV_SEND: os << "send ctx=" << e.a << " dst=" << e.b << " tag=" << e.c << " bytes=" << e.d; break;
+            case EV_DELIVER: os << "deliver ctx=" << e.a << " " << e.b << "->" << e.c << " tag=" << e.d; break;
+            case EV_POSTRECV: os << "post_recv ctx=" << e.a << " src=" << e.b << " tag=" << e.c << " cap=" << e.d; break;
+            case EV_MATCH: os << "match ctx=" << e.a << " src=" << e.b << " tag=" << e.c << " req#" << e.d; break;
+            case EV_TEST_OK: os << "test req#" << e.a << " -> completed"; break;
+            case EV_TEST_FAIL: os << "test req#" << e.a << " -> not yet"; break;
+            case EV_WAIT: os << "wait req#" << e.a; break;
+            case EV_CANCEL: os << "cancel req#" << e.a; break;
+            case EV_COLL_ARRIVE: os << coll_name(e.b) << " arrive ctx=" << e.a << " root=" << e.c << " bytes=" << e.d; break;
+            case EV_COLL_LEAVE: os << coll_name(e.b) << " leave ctx=" << e.a << " #" << e.c; break;
+            case EV_BLOCK: os << "blocks in " << ev_kind_name[e.a < EV__N ? e.a : EV_NOTE] << " (" << e.b << "," << e.c << ")"; break;
+            case EV_SPLIT: os << "split ctx=" << e.a << " color=" << e.b << " key=" << e.c << " -> ctx " << e.d; break;
+            case EV_WORK: os << "work mean=" << e.a << "us"; break;
+            case EV_OMP: os << "omp parallel region, team of " << e.a; break;
+            case EV_STALL: os << "stalled for " << e.a; break;
+            case EV_FINISH: os << "rank function returned"; break;
+            case EV_EXC: os << "rank function threw"; break;
+            default: os << ev_kind_name[e.kind] << " " << e.a << " " << e.b << " " << e.c << " " << e.d;
+        }
+        os << "\n";
     }
     return os.str();
 }
@@ -314,6 +339,7 @@ void World::yield_point(int evkind, int a, int b, int c, int d) {
     if (aborting_) { if (std::uncaught_exceptions() == 0) throw Abort(); return; }
     Task& t = *tasks_[g_rank];
     st_.yields++;
+    t.soft_calls = 0;
     // seeded stall injection
     if (o_.stall_permille > 0) {
         if (t.stall_countdown == -1) {
@@ -706,8 +732,21 @@ static bool req_ready(const ReqState& r) {
     return r.state == ReqState::MATCHED || r.state == ReqState::CANCELLED;
 }
 
+// A call that makes no MPI call in the real library (test() on an inactive request). It is not a yield point, but a rank
+// that spins on such calls alone must not starve the simulation: every 64th consecutive one is turned into a failed poll.
+void World::idle_tick() {
+    if (g_rank < 0) return;
+    Task& t = *tasks_[g_rank];
+    if (++t.soft_calls >= 64) {
+        yield_point(-1);
+        add_event(g_rank, EV_TEST_FAIL, 0, 0, 0, 0);
+        st_.tests_fail++;
+        failed_poll();
+    }
+}
+
 bool World::test(const ReqPtr& r, MsgStatus* st) {
-    if (!r || r->state == ReqState::DONE || r->state == ReqState::CANCELLED_DONE) return false; // inactive: no MPI call
+    if (!r || r->state == ReqState::DONE || r->state == ReqState::CANCELLED_DONE) { idle_tick(); return false; } // inactive: no MPI call
     yield_point(-1);
     if (req_ready(*r)) {
         add_event(g_rank, EV_TEST_OK, (int)r->id, 0, 0, 0);
